@@ -1127,6 +1127,21 @@ impl Transaction {
                 return false;
             }
 
+            //
+            // like any other user of an output, a staking transaction cannot spend one
+            // that fell out of the genesis period: the rebroadcast mechanism has moved
+            // (or collected) its value already
+            //
+            if validate_against_utxo
+                && self.spends_expired_input(
+                    blockchain.get_latest_block_id(),
+                    blockchain.genesis_period,
+                )
+            {
+                error!("ERROR 582042: staking transaction spends an input that fell out of the genesis period");
+                return false;
+            }
+
             return true;
         }
 
